@@ -164,6 +164,21 @@ def rollup_accumulator_rule(ctx: Ctx, rid: str, which=("upd", "sc")):
                 ctx.ob(rid, f"{fn.qual}: {acc} <- {norm(i.test)[:70]}", (fn, i), okk,
                        ("earliest child start (min-accumulator)" if "start" in acc else "latest child end (max-accumulator)") if okk else
                        f"roll-up accumulator for {acc} has the wrong direction ({tab})", key=f"{rid}|{fn.qual}|{acc}")
+        # the span starts from nothing: apart from the comparisons above, an accumulator is only ever given None (or is an aggregate of
+        # the children's dates) -- seeding it with a date of the container itself makes that date part of the span (a container that was
+        # given a late `end` is then "finished" at that end, and its dependants wait for it although every child is done)
+        for acc in exp:
+            for a_ in own_nodes(fn):
+                if isinstance(a_, (ast.Assign, ast.AnnAssign)) and a_.value is not None and any(
+                        isinstance(t_, ast.Name) and t_.id == acc for t_ in (a_.targets if isinstance(a_, ast.Assign) else [a_.target])):
+                    v_ = a_.value
+                    inner = v_.body if isinstance(v_, ast.IfExp) else v_
+                    fine = (isinstance(v_, ast.Constant) and v_.value is None) or (isinstance(v_, ast.Name) and v_.id == exp[acc]) or \
+                        (isinstance(inner, ast.Call) and isinstance(inner.func, ast.Name) and inner.func.id in ("min", "max"))
+                    if not fine:
+                        ctx.ob(rid, f"{fn.qual}: {acc} seeded with {norm(v_)[:50]}", (fn, a_), False,
+                               f"the roll-up of {acc} does not start from nothing: {norm(v_)[:50]} enters the span although it is not a child's date",
+                               key=f"{rid}|{fn.qual}|{acc} seed")
         if len(found) != 2:
             # aggregate form: the children's dates are collected in a list and the roll-up is min(list) / max(list)
             fdd = ctx.dep.of(fn)
